@@ -339,14 +339,19 @@ def kl(c, br):
 
 
 # ------------------------------------------------------------------------------ rsample -------------------
-@case("C10", clause="rsample", expand=lambda ix: [(0,), (1,)], replay=lambda *a: replay_simple(*a), functions=[F("rsample")])
-def rsample(c, br):
+@case("C10", clause="rsample", expand=lambda ix: [(0,), (1,), (0, True), (1, True)], replay=lambda *a: replay_simple(*a), functions=[F("rsample")])
+def rsample(c, br, rooted=False):
     """rsample(base_samples=e)[s, b, i] = mean[b, i] + sum_k L[b, i, k] e[s, b, k] with L the root handed out by
-    root_decomposition (L L^T = covariance by the dependency contract)"""
+    root_decomposition (L L^T = covariance by the dependency contract); rooted=True: the covariance is represented by a (non-triangular) root R and
+    L is that R"""
     it, ctx = c.it, c.ctx
     n, b, S = c.size("n"), c.size("b"), c.size("S")
     bs = [b.t] if br else []
     d = make_mvn(c, "d", bs, n.t)
+    R = None
+    if rooted:
+        R = sym_tensor("R", bs + [n.t, n.t])
+        d.fields["_covar"].meta["given_root"] = R
     e = sym_tensor("eps", [S.t] + bs + [n.t])
     res = it.call(ctx, c.getattr(d, "rsample"), [], {"base_samples": e})
     idx = fresh_in_range(c, [S.t] + bs + [n.t], "i")
@@ -354,7 +359,8 @@ def rsample(c, br):
     cov = d.fields["_covar"]
     mi, mj = z3.Int("mi!"), z3.Int("mj!")
     M = z3.Lambda([mi], z3.Lambda([mj], cov.at(bi + [mi, mj])))
-    want = d.fields["loc"].at(bi + [i_]) + mk_sum(lambda k: z3.If(k <= i_, CHOL(M, n.t, i_, k), z3.RealVal(0)) * e.at([s_] + bi + [k]), n.t)
+    root = (lambda k: R.at(bi + [i_, k])) if rooted else (lambda k: z3.If(k <= i_, CHOL(M, n.t, i_, k), z3.RealVal(0)))
+    want = d.fields["loc"].at(bi + [i_]) + mk_sum(lambda k: root(k) * e.at([s_] + bi + [k]), n.t)
     c.prove("rsample.rank", z3.BoolVal(len(res.dims) == br + 2))
     c.prove("rsample.affine_map_of_base_samples", res.at(idx) == want)
 
@@ -450,6 +456,14 @@ def replay_simple(model, params, clause, info):
             ok = torch.allclose(s, want) and torch.allclose(Lr @ Lr.transpose(-1, -2), d.covariance_matrix)
             detail.append(f"rsample batch {bs}: {ok}")
             bad |= not ok
+            # covariance represented by a non-triangular root: the sample must be mean + R e for that root
+            from linear_operator.operators import RootLinearOperator
+            R = torch.randn(*bs, 3, 3, dtype=torch.double) + 2 * torch.eye(3, dtype=torch.double)
+            dr = gpytorch.distributions.MultivariateNormal(d.mean, RootLinearOperator(R))
+            sr = dr.rsample(base_samples=e)
+            okr = torch.allclose(sr, d.mean + (R @ e.unsqueeze(-1)).squeeze(-1))
+            detail.append(f"rsample root-represented batch {bs}: {okr}")
+            bad |= not okr
     return {"violates": bad, "detail": "; ".join(detail) or "no native check for this clause",
             "entry": {"module": "contracts.C10_mvn", "function": "replay_simple", "args": [model, list(params), clause, info]}}
 
